@@ -74,7 +74,7 @@ def render_argument(M, a, out, flags=None, width=None, prec=None):
     if flags not in (None, 0, 0x20):   # 0x20 = default fill ' ' encoded in flags on some versions
         if flags & ~0x1fffff not in (0,):
             pass
-    if kind == 'display': render_display(M, a.fields[0], tmp)
+    if kind == 'display': render_display(M, a.fields[0], tmp, a.fields[2] if len(a.fields) > 2 else None)
     elif kind == 'debug': render_debug(M, a.fields[0], tmp)
     elif kind in ('lower_hex', 'upper_hex'):
         v = M.rdd(a.fields[0])
@@ -84,7 +84,8 @@ def render_argument(M, a, out, flags=None, width=None, prec=None):
         raise EncoderGap('format trait ' + kind)
     if tmp is not out:
         if prec is not None: tmp = tmp[:prec]
-        if any(isinstance(x, DecSeg) for x in tmp): raise EncoderGap('width on symbolic integer')
+        if any(isinstance(x, DecSeg) for x in tmp):
+            out.extend(tmp); return          # padded symbolic number: still an opaque run of digits
         pad = (width or 0) - len(tmp)
         zero = bool(flags and (flags >> 24) & 1) if flags else False
         out.extend(tmp + [32] * max(pad, 0)) if kind != 'display' or not _is_num(M, a.fields[0]) else out.extend([48 if zero else 32] * max(pad, 0) + tmp)
@@ -198,7 +199,8 @@ def render_debug(M, r, out):
 # ------------------------------------------------------------------------------------------ models
 @pattern(r'std::fmt::rt::Argument::new_(display|debug|lower_hex|upper_hex|octal|binary|lower_exp|upper_exp|pointer)')
 def argument_new(M, ctx, r):
-    return Adt('Argument', 0, [r, ctx.method[4:]])
+    hint = 'char' if (ctx.targs or '').strip().lstrip('&') == 'char' else None
+    return Adt('Argument', 0, [r, ctx.method[4:], hint])
 
 @model('std::fmt::rt::Argument::from_usize')
 def argument_from_usize(M, ctx, r):
